@@ -58,6 +58,9 @@ type frame struct {
 // Interp executes one path.
 type Interp struct {
 	termNames map[string]string
+	spPending bool
+	spTrace   []int
+	nextNid   int
 	pcLits map[string]bool // literal text of the asserted path constraints (branch shortcut)
 	P       *Program
 	cfg     *Config
@@ -77,6 +80,7 @@ type Interp struct {
 	panicsBad bool
 	allowDead bool
 	clock     value // model clock: int64 nanoseconds (uint64 bits or *sym BV64)
+	timerFires int  // timers fired on this path (livelock guard, see fireTimer)
 	timers    []*timer
 	sideState map[*value]any // mutexes, conds, once, waitgroups keyed by address
 	objIDs    map[any]int
@@ -191,7 +195,13 @@ func (in *Interp) visitInstr(fr *frame, instr ssa.Instruction) continuation {
 	switch instr := instr.(type) {
 	case *ssa.DebugRef:
 	case *ssa.UnOp:
+		if instr.Op == token.ARROW {
+			in.spPending = in.instrumented(fr.fn)
+		}
 		fr.env[instr] = in.unop(instr, fr.get(instr.X))
+		if instr.Op == token.ARROW {
+			in.spPost(fr.fn)
+		}
 	case *ssa.BinOp:
 		fr.env[instr] = in.binop(instr.Op, instr.X.Type(), instr.Y.Type(), fr.get(instr.X), fr.get(instr.Y))
 	case *ssa.Call:
@@ -240,7 +250,9 @@ func (in *Interp) visitInstr(fr *frame, instr ssa.Instruction) continuation {
 	case *ssa.Panic:
 		panic(targetPanic{v: fr.get(instr.X)})
 	case *ssa.Send:
+		in.spPending = in.instrumented(fr.fn)
 		in.chanSend(fr.get(instr.Chan).(*channel), fr.get(instr.X))
+		in.spPost(fr.fn)
 	case *ssa.Store:
 		p := fr.get(instr.Addr).(*value)
 		if p == nil {
@@ -281,7 +293,13 @@ func (in *Interp) visitInstr(fr *frame, instr ssa.Instruction) continuation {
 		*defers = &deferred{fn: fn, args: args, instr: instr, tail: *defers}
 	case *ssa.Go:
 		fn, args := in.prepareCall(fr, &instr.Call)
-		in.spawn(fn, args, instr.Pos())
+		g := in.spawn(fn, args, instr.Pos())
+		if in.instrumented(fr.fn) {
+			// a go statement of the instrumented package: a scheduling point of the native replay
+			in.spTrace = append(in.spTrace, in.sched.cur.nid)
+			in.nextNid++
+			g.nid = in.nextNid
+		}
 	case *ssa.MakeChan:
 		n := in.asIndex(fr.get(instr.Size), instr.Size.Type(), "makechan", 16)
 		if n < 0 {
@@ -393,7 +411,9 @@ func (in *Interp) visitInstr(fr *frame, instr ssa.Instruction) continuation {
 		}
 		fr.env[instr] = &closure{instr.Fn.(*ssa.Function), bindings}
 	case *ssa.Select:
+		in.spPending = in.instrumented(fr.fn)
 		fr.env[instr] = in.selectOp(fr, instr)
+		in.spPost(fr.fn)
 	case *ssa.MultiConvert:
 		fr.env[instr] = in.conv(instr.Type(), instr.X.Type(), fr.get(instr.X))
 	default:
@@ -416,7 +436,7 @@ func (in *Interp) makeSize(v value, t types.Type, msg string) int {
 			n = int64(v)
 		}
 		if n < 0 || n > int64(in.cfg.MaxAlloc) {
-			if n < 0 || n > 1<<47 {
+			if n < 0 || n > 1<<48 {
 				in.runtimePanic(msg)
 			}
 			// a huge but legal allocation from concrete data: the engine cannot hold it
@@ -442,12 +462,14 @@ func (in *Interp) makeSize(v value, t types.Type, msg string) int {
 
 // onHugeAlloc handles make() with a symbolic size that can exceed the engine's cap.
 func (in *Interp) onHugeAlloc(v *sym, w int, signed bool, msg string) {
-	// sizes with the top bit set (or beyond 2^47) make the Go runtime panic
-	neg := in.mk(sBool, 0, "(bvugt "+v.t+" "+bvLit(w, uint64(1)<<47)+")")
+	// sizes with the top bit set (or beyond maxAlloc = 2^48 bytes on 64-bit linux; exact for
+	// one-byte elements) make the Go runtime panic
+	neg := in.mk(sBool, 0, "(bvugt "+v.t+" "+bvLit(w, uint64(1)<<48)+")")
 	if in.branch(neg, "alloc-panics") {
 		in.runtimePanic(msg)
 	}
 	in.event("huge-alloc", v)
+	in.hugeAllocHook(v, w, signed) // intr_C35.go: lets the harness judge the allocation
 	panic(pathEnd{"ok", "unbounded allocation path ended (recorded as event huge-alloc)"})
 }
 
